@@ -4,6 +4,8 @@ import LyModel.Diff.Drv
 import LyModel.Diff.MergeSafe
 import LyModel.Diff.K13CanonDefs
 import LyModel.Diff.UserOrdRev
+import LyModel.Diff.UORevCore
+import LyModel.Diff.UOBridgeHyp
 /-! driver ops of component `diff13` (reverse and merge of diffs, C13): see harness/api_diff13.c for the protocol -/
 namespace LyModel.Diff.Drv13
 open LyModel LyModel.Tree LyModel.Diff.Drv
@@ -54,12 +56,33 @@ def handle (op : String) (args : List String) : String :=
       | .ok M => "ok " ++ dumpTok (stripNpL S M) ++ " " ++ applyFields S (parseFixes fx) dflt A M C
   | "hyp3", [dsl, a, b, c, _fx] =>
     -- model only: the hypotheses of Props/C13Tree.lean merge_apply_partial_tree, evaluated on the triple:
-    -- schemaOK  wfForest(A,B,C)  canonT(A,B,C)  mergeSafe(diff(A,B), diff(B,C))
+    -- schemaOK  wfForest(A,B,C)  canonT(A,B,C)  mergeSafe(diff(A,B), diff(B,C))  mergeSafe0(diff(A,B), diff(B,C))
+    -- (the last two agree on well-formed trees: Diff/LemmasKeyCopy.lean mergeSafe_of_computed)
     withSchema dsl fun S => withTree S a fun A => withTree S b fun B => withTree S c fun C =>
       let b := fun (x : Bool) => if x then "1" else "0"
       "ok " ++ b (K13.schemaOK S) ++ " " ++ b (wfForest S A && wfForest S B && wfForest S C) ++ " " ++
         b (K13.canonT S A && K13.canonT S B && K13.canonT S C) ++ " " ++
-        b (mergeSafe S (diff S true A B) (diff S true B C))
+        b (mergeSafe S (diff S true A B) (diff S true B C)) ++ " " ++ b (mergeSafe0 S (diff S true A B) (diff S true B C))
+  | "uohdiff", [dsl, a, b] =>
+    -- model only: the hypothesis `hdiff` of Props/C13RevUOTree.lean reverse_apply_userord_flat_ll_fixed_of_diff — for two flat
+    -- sibling lists of one user-ordered configuration leaf-list (`UOB.flatLL`, else `-`), is the model's diff (= libyang's, stage 1 of
+    -- the check) the encoding of `UORev.diffO` on the values, orig-value included?
+    -- the instances of the first user-ordered configuration leaf-list among the siblings are taken on their own (`A'`, `B'`; the
+    -- built trees also carry the default container); both the diff of the flat lists and the part of the full diff on that leaf-list
+    -- have to be the encoding
+    withSchema dsl fun S => withTree S a fun A => withTree S b fun B =>
+      match (A ++ B).find? (fun n => S.kind? n.sid == some .leaflist && S.isUserOrd n.sid && S.config n.sid) with
+      | none => "ok -"
+      | some n0 =>
+        let A' := A.filter (·.sid == n0.sid)
+        let B' := B.filter (·.sid == n0.sid)
+        match UOB.flatLL S A' B' with
+        | none => "ok -"
+        | some s =>
+          if (A'.map (·.val)).contains [] then "ok -"
+          else
+            let want := (UORev.diffO (A'.map (·.val)) (B'.map (·.val))).map (UORev.enc s)
+            if beqL (diff S true A' B') want && beqL ((diff S true A B).filter (·.sid == s)) want then "ok 1" else "ok 0"
   | "uocore", [a, b] =>
     -- model only: the operations of the list core for one user-ordered (leaf-)list, `UO.diffU'` and its repaired reversal
     -- `UO.reverseU` (Props/C13RevUO.lean: userord_reverse_apply); the check compares them with libyang's diff nodes
